@@ -378,11 +378,13 @@ impl PrettyPrinter {
             if no_padding {
                 unpadded
             } else {
-                format!(
-                    "{:width$}",
-                    unpadded,
-                    width = column_name.len() + 3 + self.column_widths[column_name]
-                )
+                // pad by hand: a `{:width$}` argument above u16::MAX makes format! panic,
+                // which a single very long value is enough to reach
+                let width = column_name.len() + 3 + self.column_widths[column_name];
+                let padding = width.saturating_sub(unpadded.chars().count());
+                let mut padded = unpadded;
+                padded.extend(std::iter::repeat(' ').take(padding));
+                padded
             }
         });
 
